@@ -14,6 +14,9 @@ import time as _time
 import traceback
 
 VERIF = os.path.dirname(os.path.dirname(os.path.abspath(__file__)))
+# where evidence/ and replays/ are written (selftest redirects it so that runs against seeded
+# changes never overwrite the evidence of the real tree)
+OUT = os.environ.get("VERIF_OUT") or VERIF
 PERF = _time.perf_counter
 
 LEVEL = "model_checking"
@@ -258,8 +261,8 @@ def write_evidence(ctx, n_known, n_new):
     }
     if states < 1 or transitions < 1:
         raise HarnessError(f"vacuous run: states={states} transitions={transitions}")
-    os.makedirs(os.path.join(VERIF, "evidence"), exist_ok=True)
-    p = os.path.join(VERIF, "evidence", f"{ctx.pid}.json")
+    os.makedirs(os.path.join(OUT, "evidence"), exist_ok=True)
+    p = os.path.join(OUT, "evidence", f"{ctx.pid}.json")
     tmp = p + ".tmp"
     with open(tmp, "w") as f:
         json.dump(ev, f, indent=1, default=jdefault, sort_keys=True)
@@ -282,7 +285,7 @@ def finish(ctx):
             f"KNOWN-FINDING: property={ctx.pid} {v['signature']} {e.get('what', e.get('description', ''))}"
             f" (seen {v['count']}x)"
         )
-    os.makedirs(os.path.join(VERIF, "replays"), exist_ok=True)
+    os.makedirs(os.path.join(OUT, "replays"), exist_ok=True)
     for v in new:
         body = {
             "property": ctx.pid,
@@ -293,7 +296,7 @@ def finish(ctx):
             "count": v["count"],
         }
         path = os.path.join(
-            VERIF, "replays", f"{ctx.pid}-{digest([v['signature'], v['replay']])}.json"
+            OUT, "replays", f"{ctx.pid}-{digest([v['signature'], v['replay']])}.json"
         )
         with open(path, "w") as f:
             json.dump(body, f, indent=1, default=jdefault, sort_keys=True)
